@@ -413,6 +413,17 @@ def cursorFound (st : CS) (row col : Nat) : Bool :=
 /-- `NumberedMargin.get_width` -/
 def numberedMarginWidth (lineCount : Nat) : Nat := max 3 ((toString lineCount).length + 1)
 
+/-- a window margin as far as `_write_to_screen_at_index` needs it for its width bookkeeping -/
+inductive Margin where
+  /-- NumberedMargin -/
+  | numbered
+  /-- ScrollbarMargin: `get_width` = 1 -/
+  | scrollbar
+  /-- PromptMargin(get_prompt = t): `get_cwidth(text)` -/
+  | prompt (t : Text)
+  /-- ConditionalMargin(m, filter) with `filter() = b`: width of `m` or 0 -/
+  | cond (b : Bool) (m : Margin)
+
 structure Cfg where
   xpos : Int
   ypos : Int
@@ -421,10 +432,14 @@ structure Cfg where
   left : Nat
   right : Nat
   beyond : Bool
+  /-- a NumberedMargin as the first left margin (its rows are modelled, see `marginCells`) -/
   margin : Bool
   /-- `get_line_prefix` : (line 0, other lines, continuation rows) -/
   pfx : Option (Text × Text × Text)
   procs : List Proc
+  /-- further `left_margins` (after the numbered one) and the `right_margins`: only their widths matter here -/
+  lefts : List Margin := []
+  rights : List Margin := []
 
 def Cfg.prefixFn (c : Cfg) : Option (Nat → Nat → Text) :=
   c.pfx.map fun (a, b, k) => fun lineno wcnt => if wcnt > 0 then k else if lineno = 0 then a else b
@@ -467,20 +482,54 @@ def envFor (W : Widths) (c : Cfg) (width : Int) (height : Nat) (wrap : Bool) (mw
   { W := W, width := width, height := height, wrap := wrap,
     xpos := c.xpos + mw, ypos := c.ypos, pfx := c.prefixFn }
 
-/-- `Window._write_to_screen_at_index` for a focused `BufferControl` window: content, scroll, copy.
-    `none` = the processors' position map raised. -/
+/-- `Margin.get_width` -/
+def marginWidth (W : Widths) (lineCount : Nat) : Margin → Nat
+  | .numbered => numberedMarginWidth lineCount
+  | .scrollbar => 1
+  | .prompt t => textWidth W t
+  | .cond b m => if b then marginWidth W lineCount m else 0
+
+/-- `left_margin_widths = [self._get_margin_width(m) for m in self.left_margins]` -/
+def Cfg.leftWidths (c : Cfg) (W : Widths) (lineCount : Nat) : List Nat :=
+  (if c.margin then [numberedMarginWidth lineCount] else []) ++ c.lefts.map (marginWidth W lineCount)
+
+/-- `right_margin_widths` -/
+def Cfg.rightWidths (c : Cfg) (W : Widths) (lineCount : Nat) : List Nat :=
+  c.rights.map (marginWidth W lineCount)
+
+/-- `sum(left_margin_widths)` : where the body starts (`move_x`, `x_offset`) -/
+def Cfg.leftWidth (c : Cfg) (W : Widths) (lineCount : Nat) : Nat := (c.leftWidths W lineCount).sum
+
+/-- `sum(right_margin_widths)` -/
+def Cfg.rightWidth (c : Cfg) (W : Widths) (lineCount : Nat) : Nat := (c.rightWidths W lineCount).sum
+
+/-- `total_margin_width = sum(left_margin_widths + right_margin_widths)` -/
+def Cfg.totalMarginWidth (c : Cfg) (W : Widths) (lineCount : Nat) : Nat :=
+  (c.leftWidths W lineCount ++ c.rightWidths W lineCount).sum
+
+/-- `write_position.width - total_margin_width` : the width of the window body -/
+def Cfg.bodyWidth (c : Cfg) (W : Widths) (totalWidth lineCount : Nat) : Int :=
+  (totalWidth : Int) - c.totalMarginWidth W lineCount
+
+/-- `Window._write_to_screen_at_index` for a focused `BufferControl` window: margin widths, content,
+    scroll, copy — with the width bookkeeping as the code has it: `create_content`, `_scroll` (hence
+    `get_height_for_line`) and `_copy_body` each get `write_position.width - total_margin_width`, the body
+    starts `sum(left_margin_widths)` columns into the window.  `none` = the processors' position map raised. -/
 def render (W : Widths) (c : Cfg) (totalWidth height : Nat) (wrap : Bool) (text : Text) (cur : Nat)
     (s : Scroll) : Option Rendered :=
   let lines := contentLines c.procs text
-  let mw : Nat := if c.margin then numberedMarginWidth lines.length else 0
-  let width : Int := (totalWidth : Int) - mw
+  let moveX : Nat := c.leftWidth W lines.length
+  -- `self._scroll(ui_content, write_position.width - total_margin_width, write_position.height)`
+  let scrollWidth : Int := c.bodyWidth W totalWidth lines.length
+  -- `self._copy_body(ui_content, screen, write_position, sum(left_margin_widths), write_position.width - total_margin_width, ...)`
+  let copyWidth : Int := c.bodyWidth W totalWidth lines.length
   let cy := rowOf text cur
   match cursorX c.procs text cur with
   | none => none
   | some cx =>
-    let s' := scrollFor W c lines width height wrap cy cx s
-    some { scroll := s', cy := cy, cx := cx, width := width, xoff := c.xpos + mw,
-           st := copyBody (envFor W c width height wrap mw) lines s' }
+    let s' := scrollFor W c lines scrollWidth height wrap cy cx s
+    some { scroll := s', cy := cy, cx := cx, width := copyWidth, xoff := c.xpos + moveX,
+           st := copyBody (envFor W c copyWidth height wrap moveX) lines s' }
 
 /-! ## `get_vertical_scroll` / `get_horizontal_scroll` callbacks -/
 
@@ -530,11 +579,11 @@ def bufferClick (procs : List Proc) (text : Text) (row col : Nat) : Nat :=
   rowColToIndex text row ((merged row ls.length procs (ls.getD row [])).d2s (col : Int))
 
 /-- `mouse_handlers.set_mouse_handler_for_range(x_min, x_max, ...)` : the columns `[x_min, x_max)` the
-    handler is installed for.  The code subtracts the LEFT margin widths from the right edge as well
-    (`x_max = xpos + width - total_margin_width`); `fixed` = proposed fix C11-mouse-region
-    (`- sum(right_margin_widths)`; no right margins are modelled). -/
-def mouseXRange (fixed : Bool) (xpos : Int) (totalWidth mw : Nat) : Int × Int :=
-  (xpos + mw, xpos + totalWidth - (if fixed then 0 else (mw : Int)))
+    handler is installed for: `x_min = xpos + sum(left_margin_widths)`,
+    `x_max = xpos + width - sum(right_margin_widths)` (since fix ca5ef2e; before it `- total_margin_width`,
+    `fixed = false`, which cut the body short by the left margins) -/
+def mouseXRange (fixed : Bool) (xpos : Int) (totalWidth lw rw : Nat) : Int × Int :=
+  (xpos + lw, xpos + totalWidth - (if fixed then (rw : Int) else ((lw + rw : Nat) : Int)))
 
 /-! ## NumberedMargin.create_margin (not relative, no tildes) as `_copy_margin` draws it -/
 
